@@ -5,6 +5,9 @@ from props import textgen as tg
 # >>> a_c01
 from props import C01_more
 # <<< a_c01
+# >>> w_c01
+from props import C01_w5
+# <<< w_c01
 
 RULE = ("documents from the abstract model (8 operators, quoted/unquoted/@var/@[..]/non-ASCII scalars, escaped quotes, nested objects, arrays, "
         "arrays of objects, empty containers, headers, parameter blocks, object->array and array->kv mixed containers) x 8 layout styles "
@@ -19,6 +22,11 @@ RULE = ("documents from the abstract model (8 operators, quoted/unquoted/@var/@[
         "parses into one tape with rejected / BOM / empty inputs in the pool; Operator::symbol/name/Display of every operator token; the non-x86-64 scanners under "
         "Miri (i686) against the byte-wise specifications and the SWAR model. "
         # <<< a_c01
+        # >>> w_c01
+        "Wave 5 (props/C01_w5.py): wf_doc_mixed documents (scalar-first containers inside object tails and key-value lists, container-first key-value lists, "
+        "nested to depth 4) against the extracted TextDocMixed.wfm_fields / TextDoc.flatten / render and the real parser, with deliberately broken members; "
+        "accepted inputs with every kind of ending x trailing gaps (boundary-first, and ';'-first after a boundary byte). "
+        # <<< w_c01
         "non-trivial = the parse succeeded with at least one container or operator token, or a scanner case with a boundary byte")
 TRUSTED = ["x86-64 SSE2 intrinsics modelled by their lane-wise meaning (first lane whose byte is in the compared set)",
            # a_c01
@@ -171,6 +179,9 @@ def run(ctx):
     # >>> a_c01 (wave 4): adversarial layouts, the classes wf_doc excludes, reuse chains, non-x86-64 scanners (audit/C01.md)
     C01_more.run_part(ctx)
     # <<< a_c01
+    # >>> w_c01 (wave 5): wf_doc_mixed documents (containers inside mixed regions), trailing gaps (audit/C01.md)
+    C01_w5.run_part(ctx)
+    # <<< w_c01
 
 
 def search(ctx):
